@@ -39,6 +39,41 @@ TRUSTED_BASE = [
 ]
 
 
+# `#sig thm` prints a hash of the STATEMENT of `thm` together with the types and bodies of every constant of the `Dino`
+# namespace (model functions, predicates such as `Dom`, `Shaped`, `IotaRel`, structures and their constructors) that the
+# statement reaches transitively; Mathlib / core constants and the generated `DinoGen` tables are not followed.  The
+# pairs (name, hash) are sorted by name before mixing, so the result does not depend on traversal order.
+SIG_ELAB = r"""elab "#sig " id:ident : command => do
+  let c ← liftCoreM <| realizeGlobalConstNoOverloadWithInfo id
+  let env ← getEnv
+  let some info := env.find? c | throwError "unknown constant"
+  let mut seen : NameSet := {}
+  let mut todo : Array Name := info.type.getUsedConstants
+  let mut parts : Array (String × UInt64) := #[]
+  while !todo.isEmpty do
+    let n := todo.back!
+    todo := todo.pop
+    if seen.contains n then continue
+    seen := seen.insert n
+    if n.getRoot == `Dino then
+      if let some ci := env.find? n then
+        let mut h : UInt64 := hash ci.type
+        todo := todo ++ ci.type.getUsedConstants
+        match ci with
+        | .defnInfo d =>
+          h := mixHash h (hash d.value)
+          todo := todo ++ d.value.getUsedConstants
+        | .inductInfo i =>
+          for ctor in i.ctors do todo := todo.push ctor
+        | _ => pure ()
+        parts := parts.push (n.toString, h)
+  let sorted := parts.qsort (fun a b => a.1 < b.1)
+  let mut h : UInt64 := hash info.type
+  for p in sorted do h := mixHash h (mixHash (hash p.1) p.2)
+  logInfo m!"SIG {c} {h}"
+"""
+
+
 class Infra(Exception):
   """Infrastructure failure: exit 2, never a VIOLATION line."""
 
@@ -230,11 +265,7 @@ class Ctx:
     # `#sig` prints a structural hash of the elaborated STATEMENT (the type) of each theorem: compared with the hashes
     # pinned in lean/index/<pid>.sig (written by harness/pinsigs.py and committed), so that a theorem cannot be
     # weakened, or dropped together with its index line, without the check noticing
-    body = (f'import {module}\nimport Lean\nopen Lean Elab Command in\n'
-            'elab "#sig " id:ident : command => do\n'
-            '  let c ← liftCoreM <| realizeGlobalConstNoOverloadWithInfo id\n'
-            '  let some info := (← getEnv).find? c | throwError "unknown constant"\n'
-            '  logInfo m!"SIG {c} {hash info.type}"\n'
+    body = (f'import {module}\nimport Lean\nopen Lean Elab Command in\n' + SIG_ELAB
             + ''.join(f'#sig {t}\n#print axioms {t}\n' for t in theorems))
     apath = os.path.join(WORK, f'Audit_{self.pid}.lean')
     write_if_changed(apath, body)
